@@ -1,0 +1,25 @@
+//go:build verif
+
+package impl
+
+import (
+	datatransfer "github.com/filecoin-project/go-data-transfer/v2"
+	"github.com/filecoin-project/go-data-transfer/v2/channels"
+)
+
+// This file is only compiled with the `verif` build tag. It exposes internals
+// to the external verification harness; it does not change behaviour.
+
+// VerifChannelsOf returns the channel store of a manager created by NewDataTransfer
+func VerifChannelsOf(m datatransfer.Manager) *channels.Channels {
+	return m.(*manager).channels
+}
+
+// VerifTimeCounter is the transfer ID generator
+type VerifTimeCounter struct{ tc *timeCounter }
+
+// VerifNewTimeCounter creates a transfer ID generator as a new manager does
+func VerifNewTimeCounter() VerifTimeCounter { return VerifTimeCounter{newTimeCounter()} }
+
+// Next issues the next transfer ID
+func (v VerifTimeCounter) Next() uint64 { return v.tc.next() }
